@@ -608,4 +608,7 @@ def signals_to_torch_feat_dir(args=None):
         )
         if options.manifest is not None:
             print(utt_id, file=options.manifest)
+            # make the entry durable now: an unexpected termination must not lose
+            # the record of utterances whose features are already on disk
+            options.manifest.flush()
     return 0
